@@ -179,8 +179,13 @@ fn gen_case(rng: &mut Rng) -> Option<Case> {
         let dt = if in_fragment || rng.chance(40) { rng.pick(&frag).clone() } else { rng.pick(&other).clone() };
         let np = if matches!(dt, DataType::Union(_, _)) { 0 } else { *rng.pick(&[0usize, 0, 30]) };
         let mut strings = |r: &mut Rng| adversarial(r);
-        let a = if rng.chance(60) { edge_array(rng, &dt, nrows, np, &mut strings) } else { mk::array(rng, &dt, nrows, Cfg::tame(np)) };
-        let nullable = np > 0 || a.logical_null_count() > 0 || matches!(dt, DataType::Null);
+        let (dt, a) = if !in_fragment && rng.chance(25) {
+            crate::json::logical_null_column(rng, nrows)
+        } else {
+            let a = if rng.chance(60) { edge_array(rng, &dt, nrows, np, &mut strings) } else { mk::array(rng, &dt, nrows, Cfg::tame(np)) };
+            (dt, a)
+        };
+        let nullable = np > 0 || a.logical_null_count() > 0 || matches!(dt, DataType::Null) || !in_fragment;
         fields.push(Field::new(format!("c{c}"), dt, nullable));
         cols.push(a);
     }
